@@ -48,8 +48,8 @@ def c16_1(ctx):
             gen = {}
     if any(not isinstance(v, int) for v in gen.values()):
         gen = {}
-        for nm in sorted({x.id for x in ast.walk(fn) if isinstance(x, ast.Name)}):
-            v = f.fold(ast.Name(id=nm, ctx=ast.Load()))
+        for e_ in [x for x in ast.walk(fn) if isinstance(x, (ast.Name, ast.Tuple, ast.List)) and isinstance(getattr(x, "ctx", None), ast.Load)]:
+            v = f.fold(e_)
             if isinstance(v, (tuple, list)) and len(v) == 5 and all(isinstance(x, int) for x in v):
                 gen = {1 << i: x for i, x in enumerate(v)}
     ctx.count("table_entries", 5)
